@@ -354,8 +354,25 @@ class SolveLoop:
         after = _live_in(rest)
         carried = assigned & (live_in | after)
         extra = carried - self.HAVOCED - self.GUARDED
-        if extra:
-            raise Unsupported(f"loop contract of Solver.solve does not cover loop-carried variable(s) {sorted(extra)}")
+        # a loop-carried variable the contract does not know is HAVOCED WITHOUT ANY INVARIANT (sound: the invariant
+        # says nothing about it, so nothing about it may be assumed at the loop head): an arbitrary value of the
+        # kind it has at loop entry.  Bookkeeping that does not flow into what the contracts constrain stays
+        # invisible; if it does flow there (e.g. the returned point is taken from it) the affected obligation fails.
+        for v in sorted(extra):
+            cur = frame.locals.get(v, None)
+            p = self.u.it.path if hasattr(self.u, "it") else None
+            from pyvc.values import Obj as _Obj
+            if isinstance(cur, _Obj) and cur.cls is not None and cur.cls.name == "Iterate":
+                frame.locals[v] = self.ctx.new_iterate(f"extra_{v}", evaluated=True)
+            elif isinstance(cur, bool) or (z3.is_expr(cur) and z3.is_bool(cur)):
+                frame.locals[v] = p.bool(f"extra_{v}")
+            elif isinstance(cur, int) or (z3.is_expr(cur) and z3.is_int(cur)):
+                frame.locals[v] = p.int(f"extra_{v}")
+            elif isinstance(cur, float) or (z3.is_expr(cur) and z3.is_real(cur)):
+                frame.locals[v] = p.real(f"extra_{v}")
+            else:
+                raise Unsupported(f"loop contract of Solver.solve does not cover loop-carried variable(s) {sorted(extra)}")
+            self.ctx.extra_havoced = sorted(set(getattr(self.ctx, "extra_havoced", [])) | {v})
         missing = [v for v in self.HAVOCED - {"status", "path_times"} if v not in frame.locals]
         if self.ctx.params.fields["collect_path"] and "path_times" not in frame.locals:
             missing.append("path_times")
